@@ -1087,3 +1087,38 @@ package rockredis
 //@   modifies *
 //@ loop 1
 //@   invariant it != nil && rliOK(it)
+
+//@ property C13
+// HSCAN / ZSCAN: same page contract as SSCAN; each page is opened on the collection's own range for the cursor
+//@ func (db *RockDB) hScanGeneric(key []byte, cursor []byte, count int, match string, reverse bool) ([]common.KVRecord, error)
+//@   requires db != nil
+//@   callassert buildSpecificDataScanIterator arg1 == HashType && sameSlice(arg2, keyInfo.Table) && sameSlice(arg3, keyInfo.VerKey) && sameSlice(arg4, cursor) && arg6 == reverse
+//@   ensures result1 == nil ==> len(result0) <= MAX_BATCH_NUM && (1 <= count && count <= MAX_BATCH_NUM ==> len(result0) <= count)
+//@   modifies *
+//@ loop 1
+//@   invariant i == len(v) && 0 <= i && i <= count && 1 <= count && count <= MAX_BATCH_NUM && (1 <= old(count) && old(count) <= MAX_BATCH_NUM ==> count == old(count)) && it != nil && rliOK(it)
+//@ func (db *RockDB) zScanGeneric(key []byte, cursor []byte, count int, match string, reverse bool) ([]common.ScorePair, error)
+//@   requires db != nil
+//@   callassert buildSpecificDataScanIterator arg1 == ZSetType && sameSlice(arg2, keyInfo.Table) && sameSlice(arg3, keyInfo.VerKey) && sameSlice(arg4, cursor) && arg6 == reverse
+//@   ensures result1 == nil ==> len(result0) <= MAX_BATCH_NUM && (1 <= count && count <= MAX_BATCH_NUM ==> len(result0) <= count)
+//@   modifies *
+//@ loop 1
+//@   invariant i == len(v) && 0 <= i && i <= count && 1 <= count && count <= MAX_BATCH_NUM && (1 <= old(count) && old(count) <= MAX_BATCH_NUM ==> count == old(count)) && it != nil && rliOK(it)
+
+// SCAN over the key space of one type: the cursor is exclusive in both directions (RangeOpen), a page holds at
+// most COUNT keys beyond what the caller's buffer already held
+//@ func (db *RockDB) buildScanIterator(minKey []byte, maxKey []byte, reverse bool) (*engine.RangeLimitedIterator, error)
+//@   requires db != nil
+//@   callassert NewDBRangeIterator sameSlice(arg1, minKey) && sameSlice(arg2, maxKey) && arg3 == common.RangeOpen && arg4 == reverse
+//@   ensures result1 == nil ==> result0 != nil && rliOK(result0)
+//@ func buildScanKeyRange(storeDataType byte, key []byte, reverse bool) (minKey []byte, maxKey []byte, err error)
+//@   trusted key-space scan bounds (encodeScanKey per type)
+//@ func decodeScanKey(storeDataType byte, ek []byte) ([]byte, error)
+//@   trusted per-type key decoder dispatch (decoders verified under C12)
+//@ func (db *RockDB) scanGenericUseBuffer(storeDataType byte, key []byte, count int, match string, inputBuffer [][]byte, reverse bool) ([][]byte, error)
+//@   requires db != nil
+//@   callassert buildScanIterator arg3 == reverse
+//@   ensures result1 == nil ==> len(result0) <= len(inputBuffer) + MAX_BATCH_NUM && (1 <= count && count <= MAX_BATCH_NUM ==> len(result0) <= len(inputBuffer) + count)
+//@   modifies *
+//@ loop 1
+//@   invariant len(v) == i + old(len(inputBuffer)) && 0 <= i && i <= count && 1 <= count && count <= MAX_BATCH_NUM && (1 <= old(count) && old(count) <= MAX_BATCH_NUM ==> count == old(count)) && it != nil && rliOK(it)
